@@ -41,6 +41,16 @@ theorem exec_cases :
        "return return nil, protocol.NewFatalClientErr(nil, \"E_INVALID\", fmt.Sprintf(\"invalid command %s\", params[0]))"] := by
   decide
 
+/-- (audit C32) the command words of the MODEL, as bytes, are the words of the regenerated `case` labels of
+`Exec` (text read off the current source, compared character by character) — `Nsq.Tie.Registry.command_bytes`
+only compares Lean literals with Lean literals. The magic `"  V1"` cannot be pinned this way yet (the extractor
+collapses blanks inside string literals, see `magic_cases`): it is pinned by behaviour — the hostile generator sends
+streams starting with `" V1"`, `"  V1"`, `"  V2"`, `"  v1"`, … each followed by `PING`. -/
+theorem command_bytes_regenerated :
+    (LookupdProto.execCases.take 4).map String.toList =
+      [cmdPING, cmdIDENTIFY, cmdREGISTER, cmdUNREGISTER].map
+        (fun w => "case \"".toList ++ w.map (fun b => Char.ofNat b.toNat) ++ ['"']) := by decide
+
 /-- (the extractor collapses runs of blanks inside the printed expression: `"  V1"` prints as `" V1"`) -/
 theorem magic_cases :
     LookupdProto.magicCases = ["assign _, err := io.ReadFull(conn, buf)", "case \" V1\""] := by decide
